@@ -51,6 +51,24 @@ func init() {
 // AllForks enables every stable hardfork from genesis.
 func AllForks(c *config.Blockchain) { c.Hardforks = nil }
 
+// PartialForks enables the stable hardforks from genesis only up to and
+// including stage ("none": none of them).
+func PartialForks(c *config.Blockchain, stage string) {
+	m := map[string]uint32{}
+	if stage != "none" {
+		for _, hf := range config.StableHardforks {
+			m[hf.String()] = 0
+			if hf.String() == stage {
+				break
+			}
+		}
+	}
+	if len(m) == 0 {
+		m[config.StableHardforks[0].String()] = 1 << 30
+	}
+	c.Hardforks = m
+}
+
 // StagedForks activates hardforks one by one at small heights.
 func StagedForks(c *config.Blockchain) {
 	c.Hardforks = map[string]uint32{
